@@ -140,4 +140,71 @@ example : MsgOK { level := 17, type := 104, data := [0x78, 0x05, 0, 0] } := by
 example : parse false (encode [{ level := 0, type := 1, data := [0x5a] }, { level := 17, type := 104, data := [0x78, 0x05, 0, 0] }])
     = .gso 1400 2 := by decide +kernel
 
+/-- Alignment, stated: a message with `d` data bytes occupies `CMSG_SPACE(d) = 16 + ⌈d/8⌉·8` bytes in the
+buffer although its length field says `CMSG_LEN(d) = 16 + d`; the two differ exactly when `d` is not a
+multiple of 8, and the next header sits at the *aligned* offset. -/
+theorem encodeOne_space (m : Cmsg) :
+    (encodeOne m).length = cmsgSpace m.data.length ∧ (encodeOne m).length % 8 = 0 ∧
+    ((encodeOne m).length = cmsgLen m.data.length ↔ m.data.length % 8 = 0) := by
+  have h := encodeOne_length m
+  simp only [cmsgSpace, cmsgLen, cmsgAlign, sizeofCmsghdr]
+  omega
+
+/-- Reviewer seed C27-2: a UDP_GRO message that follows messages whose `cmsg_len` is not 8-aligned
+(IP_TOS: 1 data byte, `cmsg_len` 17; IP_TTL: 4, 20; IP_PKTINFO: 12, 28; IPV6_PKTINFO: 20, 36 — in fact any
+non-GRO messages of any lengths) is found, at the aligned offset `Σ CMSG_SPACE`, and its value returned.
+A walk advancing by the raw `cmsg_len` would land `8 - d mod 8` bytes short after each such message. -/
+theorem cmsg_after_unaligned (leaders : List Cmsg) (v : List UInt8) (hv : v.length = 4)
+    (hl : ∀ m ∈ leaders, MsgOK m ∧ ¬ (m.level = 17 ∧ m.type = 104)) :
+    parse false (encode (leaders ++ [{ level := 17, type := 104, data := v }])) =
+      .gso (toSigned 32 (leVal v)) (leaders.length + 1) ∧
+    (encode leaders).length = (leaders.map (fun m => cmsgSpace m.data.length)).sum := by
+  constructor
+  · have hw : ∀ m ∈ leaders ++ [{ level := 17, type := 104, data := v : Cmsg }], MsgOK m := by
+      intro m hm
+      rcases List.mem_append.mp hm with hm | hm
+      · exact (hl m hm).1
+      · simp at hm; subst hm; simp [MsgOK, hv]
+    have := walk_encode [] _ 0 0 hw
+    have hlen : ¬ ((encode (leaders ++ [{ level := 17, type := 104, data := v : Cmsg }])).length < sizeofCmsghdr ∨ false = true) := by
+      have h1 := encodeOne_length { level := 17, type := 104, data := v : Cmsg }
+      simp [encode, sizeofCmsghdr] at *; omega
+    unfold parse
+    rw [if_neg hlen]
+    simp only [List.nil_append, List.length_nil, Nat.zero_add, List.length_append, List.length_cons] at this
+    rw [this]
+    congr 1
+    rw [List.foldl_append]
+    have hfold : ∀ (l : List Cmsg) (g : Int), (∀ m ∈ l, ¬ (m.level = 17 ∧ m.type = 104)) → l.foldl groStep g = g := by
+      intro l
+      induction l with
+      | nil => intro g _; rfl
+      | cons m ms ih =>
+        intro g h
+        have hm := h m List.mem_cons_self
+        have : groStep g m = g := by
+          simp only [groStep]; rw [if_neg (fun hh => hm ⟨hh.1, hh.2.1⟩)]
+        simp only [List.foldl_cons, this]
+        exact ih g (fun x hx => h x (List.mem_cons_of_mem _ hx))
+    rw [hfold leaders 0 (fun m hm => (hl m hm).2)]
+    simp only [List.foldl_cons, List.foldl_nil, groStep, hv, Nat.le_refl, and_self, if_true]
+    have : List.take 4 v = v := List.take_of_length_le (by omega)
+    rw [this, ← leVal_foldr]
+    simp only [toSigned]
+    generalize leVal v = x
+    split <;> split <;> omega
+  · induction leaders with
+    | nil => simp [encode]
+    | cons m ms ih =>
+      have := ih (fun x hx => hl x (List.mem_cons_of_mem _ hx))
+      simp only [encode, List.map_cons, List.flatten_cons, List.length_append, List.sum_cons] at *
+      rw [this, (encodeOne_space m).1]
+
+-- the four leaders named by the seed, each directly before UDP_GRO = 1400
+example : parse false (encode [⟨0, 1, [0x10]⟩, ⟨17, 104, [0x78, 5, 0, 0]⟩]) = .gso 1400 2 := by decide +kernel
+example : parse false (encode [⟨0, 2, [64, 0, 0, 0]⟩, ⟨17, 104, [0x78, 5, 0, 0]⟩]) = .gso 1400 2 := by decide +kernel
+example : parse false (encode [⟨0, 8, List.replicate 12 7⟩, ⟨17, 104, [0x78, 5, 0, 0]⟩]) = .gso 1400 2 := by decide +kernel
+example : parse false (encode [⟨41, 50, List.replicate 20 7⟩, ⟨17, 104, [0x78, 5, 0, 0]⟩]) = .gso 1400 2 := by decide +kernel
+example : (encodeOne ⟨0, 1, [0x10]⟩).length = 24 ∧ cmsgLen 1 = 17 := by decide
+
 end Nebula.Props.C27
